@@ -204,15 +204,15 @@ fn dash_impl(src: &Path, dash: &StrokeDash, res_scale: f32) -> Option<Path> {
 
         // Using double precision to avoid looping indefinitely due to single precision rounding
         // (for extreme path_length/dash_length ratios). See test_infinite_dash() unittest.
-        let mut distance = 0.0;
-        let mut d_len = dash.first_len;
+        let mut distance = 0.0f64;
+        let mut d_len = f64::from(dash.first_len);
 
-        while distance < length {
+        while distance < f64::from(length) {
             debug_assert!(d_len >= 0.0);
             added_segment = false;
             if is_even(index) && !skip_first_segment {
                 added_segment = true;
-                contour.push_segment(distance, distance + d_len, true, &mut pb);
+                contour.push_segment(distance as f32, (distance + d_len) as f32, true, &mut pb);
             }
 
             distance += d_len;
@@ -228,7 +228,7 @@ fn dash_impl(src: &Path, dash: &StrokeDash, res_scale: f32) -> Option<Path> {
             }
 
             // fetch our next d_len
-            d_len = dash.array[index];
+            d_len = f64::from(dash.array[index]);
         }
 
         // extend if we ended on a segment and we need to join up with the (skipped) initial segment
